@@ -10,7 +10,16 @@ func plan(quick, thorough []run.PlanItem) func(string) []run.PlanItem {
 		if tier == "quick" {
 			return quick
 		}
-		return thorough
+		// the thorough tier runs three times the listed instance counts (every instance has its own
+		// seed and world / parameter variant); the race-detector scenario is listed at its real count
+		out := make([]run.PlanItem, len(thorough))
+		for i, it := range thorough {
+			out[i] = it
+			if it.Scenario != "race" {
+				out[i].Count = it.Count * 3
+			}
+		}
+		return out
 	}
 }
 
